@@ -2,6 +2,7 @@ package rules
 
 import (
 	"go/token"
+	"regexp"
 	"strings"
 
 	"golang.org/x/tools/go/ssa"
@@ -47,7 +48,7 @@ func checkC12(c *Ctx) {
 	r.Min("C12.amount", 2)
 	r.Min("C12.recipient", 2)
 	r.Min("C12.once", 2)
-	r.Min("C12.expiry", 3)
+	r.Min("C12.expiry", 4)
 	if len(rfs) == 0 {
 		r.Undecided("C12.authorised", "role", "-", "no refund function (mint + pool delete) found")
 		return
@@ -405,6 +406,26 @@ func checkC12(c *Ctx) {
 		walk(f, 0)
 		// the sweep looks at every pool entry: the pool is ordered by token and fee, not by age, so an iteration
 		// callback that can stop the scan (return true) leaves expired entries behind live ones unrefunded
+		// the sweep runs in every block: a period other than 1 lets an expired transfer that is released from a
+		// timed-out batch in an off block be batched again before the sweep sees it
+		for _, o := range sortedFuncs(sweepFns) {
+			period := ""
+			for _, b := range o.Blocks {
+				if len(b.Instrs) == 0 {
+					continue
+				}
+				iff, ok := b.Instrs[len(b.Instrs)-1].(*ssa.If)
+				if !ok {
+					continue
+				}
+				ex := p.Expr(iff.Cond, 0)
+				if m := regexp.MustCompile(`^\(\(Context\.BlockHeight\(\)%(\d+)\)[!=]=0\)$`).FindStringSubmatch(ex); m != nil && m[1] != "1" {
+					period = m[1] + " (" + c.pos(iff) + ")"
+				}
+			}
+			r.Check(period == "", "C12.expiry", "every-block:"+fname(o), p.Pos(o.Pos()), "the expiry sweep is not tied to a block period other than 1",
+				"the expiry sweep only runs every "+period+" blocks: expired transfers that become unbatched in between are batched again instead of being refunded")
+		}
 		for _, o := range sortedFuncs(sweepFns) {
 			var cbs []*ssa.Function
 			var collect func(g *ssa.Function)
